@@ -22,9 +22,17 @@
 #include <ctype.h>
 
 static void FuncSUBSTR(TempResult* pResult, TempResult const* pArgs, unsigned ArgCnt) {
-    int cnt = pArgs[0].Contents.str.len - pArgs[1].Contents.Int;
+    LargeInt len = pArgs[0].Contents.str.len, start = pArgs[1].Contents.Int, cnt;
 
     UNUSED(ArgCnt);
+    /* a start position outside the string is clipped to its bounds */
+    if (start < 0) {
+        start = 0;
+    }
+    if (start > len) {
+        start = len;
+    }
+    cnt = len - start;
     if ((pArgs[2].Contents.Int != 0) && (pArgs[2].Contents.Int < cnt)) {
         cnt = pArgs[2].Contents.Int;
     }
@@ -33,8 +41,7 @@ static void FuncSUBSTR(TempResult* pResult, TempResult const* pArgs, unsigned Ar
     }
     as_tempres_set_c_str(pResult, "");
     as_nonz_dynstr_append_raw(
-            &pResult->Contents.str, pArgs[0].Contents.str.p_str + pArgs[1].Contents.Int,
-            cnt);
+            &pResult->Contents.str, pArgs[0].Contents.str.p_str + start, (int)cnt);
 }
 
 static void FuncSTRSTR(TempResult* pResult, TempResult const* pArgs, unsigned ArgCnt) {
